@@ -1084,10 +1084,7 @@ func evalFlag(v ssa.Value, isCall, isOld valPred, call, old bool, depth int) (bo
 // the reference tree, or, when it was turned into a recursive function literal,
 // the literal inside fitRule that calls compareBest.
 func enumPeersFn(P *Prog) *ssa.Function {
-	if m := P.methodOpt(plc, "fitWorker", "enumPeers"); m != nil {
-		return m
-	}
-	if m := P.renamedFunc(plc, "fitWorker", "enumPeers"); m != nil {
+	if m := P.methodOptR(plc, "fitWorker", "enumPeers"); m != nil {
 		return m
 	}
 	cb := F(P.Method(plc, "fitWorker", "compareBest"))
